@@ -109,34 +109,6 @@ static int hier_read(hier *h, alignment_t *al)
 }
 
 /* ---------- independent context rule: which senone sequence is "that phone" ---------- */
-static int is_filler_ci(bin_mdef_t *m, int ci) { return m->phone[ci].info.ci.filler; }
-static int tri_lookup(bin_mdef_t *m, int b, int l, int r, int pos)
-{
-    int p;
-    for (p = m->n_ciphone; p < m->n_phone; ++p) { const mdef_entry_t *e = &m->phone[p]; if (e->info.cd.wpos == pos && e->info.cd.ctx[0] == b && e->info.cd.ctx[1] == l && e->info.cd.ctx[2] == r) return p; }
-    return -1;
-}
-/* a cache: the linear scan over 130k triphones is slow */
-typedef struct tkey { int b, l, r, pos, pid; } tkey; static tkey tcache[2][4096]; static int tcache_n[2];
-static int tri_nearest(bin_mdef_t *m, int lang, int b, int l, int r, int pos)
-{
-    int sil = m->sil, k, q, p, l2, r2, order[4], no = 0;
-    for (k = 0; k < tcache_n[lang]; ++k) if (tcache[lang][k].b == b && tcache[lang][k].l == l && tcache[lang][k].r == r && tcache[lang][k].pos == pos) return tcache[lang][k].pid;
-    if (sil >= 0 && is_filler_ci(m, l)) l = sil;
-    if (sil >= 0 && is_filler_ci(m, r)) r = sil;
-    order[no++] = pos; for (q = 0; q < N_WORD_POSN; ++q) if (q != pos) order[no++] = q;
-    p = -1;
-    for (q = 0; q < no && p < 0; ++q) p = tri_lookup(m, b, l, r, order[q]);
-    if (p < 0 && sil >= 0) {
-        l2 = l; r2 = r;
-        if (pos == WORD_POSN_BEGIN || pos == WORD_POSN_SINGLE) l2 = sil;
-        if (pos == WORD_POSN_END || pos == WORD_POSN_SINGLE) r2 = sil;
-        if (l2 != l || r2 != r) for (q = 0; q < no && p < 0; ++q) p = tri_lookup(m, b, l2, r2, order[q]);
-    }
-    if (p < 0) p = b;
-    if (tcache_n[lang] < 4096) { tkey *t = &tcache[lang][tcache_n[lang]++]; t->b = b; t->l = l; t->r = r; t->pos = pos; t->pid = p; }
-    return p;
-}
 static int ci_id(bin_mdef_t *m, const char *name) { int i; for (i = 0; i < m->n_ciphone; ++i) if (!strcmp(m->ciname[i], name)) return i; return -1; }
 
 /* ---------- the checks ---------- */
@@ -211,7 +183,7 @@ static void check_structure(ctx *c, const hier *h, const vd_result *res, const c
             l = j > 0 ? h->p[w->first_child + j - 1].cipid : (k > 0 ? last_ci[k - 1] : sil);
             r = j < w->nchild - 1 ? h->p[w->first_child + j + 1].cipid : (k < h->nw - 1 ? first_ci[k + 1] : sil);
             pos = w->nchild == 1 ? WORD_POSN_SINGLE : j == 0 ? WORD_POSN_BEGIN : j == w->nchild - 1 ? WORD_POSN_END : WORD_POSN_INTERNAL;
-            pid = c->cfg.cionly ? b : tri_nearest(m, c->lang, b, l, r, pos);
+            pid = c->cfg.cionly ? b : vd_triphone(m, c->lang, b, l, r, pos);
             ssid = m->phone[pid].ssid;
             if (p->nchild != ne) { vh_viol("wrong_number_of_states", "%s: phone %s of %s has %d states, the model has %d emitting states per phone", when, p->name, w->name, p->nchild, ne); goto done; }
             if (p->tmatid != m->phone[b].tmat) { vh_viol("wrong_transition_matrix", "phone %s carries transition matrix %d, the model says %d", p->name, p->tmatid, m->phone[b].tmat); goto done; }
